@@ -53,7 +53,7 @@ PROPS = {
     ),
     'C12': dict(
         units=['istype'],
-        not_covered='pattern matching, switch, destructuring, annotation enforcement on assignment paths, satisfying types',
+        not_covered='pattern matching, switch, destructuring, annotation enforcement on the assignment paths after declaration (assign_respecting_type: RefCell, closures), satisfying types',
     ),
     'C13': dict(
         units=['seqlib'],
@@ -105,7 +105,9 @@ TEXT = {
             'the element at the Python index on lists, bytes, vectors and strings (by UTF-8 byte) and raises an index error exactly when '
             'Python would; that eval.rs::slice_seq returns the Python subrange element for element; and that the default '
             'Stream::pythonic_index_isize returns the item iteration reaches (index error past the end; negative indices from the end of '
-            'the forced stream).'),
+            'the forced stream). The accessor builtins are proved to be the index / slice expression they stand for: eval.rs::slice, the closures registered as '
+            'second / third / tail / butlast / take n / drop n, First::run and Last::run (through few.rs::few / few2, also under contract) and the *_ok '
+            'conversion wrappers of core.rs.'),
     'C11': ('Verus proves for integer ranges with any step sign and any magnitude that the emptiness test, next/peek and the '
             'closed-form len() agree with the iteration that next() performs; the same for WrappedVec and Cycle; and, for an arbitrary '
             'lawful finite stream, that the default methods len / pythonic_index_isize / reversed agree with iteration.'),
@@ -131,7 +133,8 @@ TEXT = {
     'C12': ('Verus proves the type-predicate kernel: is_type(type_of(v), v) and is_type(anything, v) hold for every value, '
             'number accepts every numeric level, and builtin types classify by constructor; and struct construction (call_type): the '
             'result is an instance of that struct holding the arguments followed by the defaults of the remaining fields, Ok exactly when '
-            'every field not given has a default.'),
+            'every field not given has a default; and declaration (eval.rs::insert_declare): an annotated declaration whose value is not of the annotated '
+            'type is refused, otherwise the variable is created with exactly that type and value (the environment itself is opaque).'),
 }
 BOUNDED_NOTE = (' In addition a BOUNDED stand-in (a grid of programs run on the real interpreter built from the tree, compared with exact '
                 'reference semantics; bounds in evidence coverage.bounded) covers the functions this property depends on that no verifier '
